@@ -1,4 +1,4 @@
-\* quick 3/4: the pool as written with ONE worker: the invocation-level properties hold as well
+\* quick: the pool as written with ONE worker, broadcast replies: the invocation-level properties hold as well
 CONSTANTS
   c1 = c1
   c2 = c2
@@ -19,5 +19,6 @@ CONSTANTS
 INIT Init
 NEXT Next
 SYMMETRY Sym
+VIEW MCView
 INVARIANTS TypeOK CurInStreams DispatchInvs InvocationInvs DeliveryInvs QuiescentComplete
 CHECK_DEADLOCK FALSE
